@@ -263,6 +263,19 @@ def corpus_monitors(ctx, shim, r, ncases):
                          "vertical => x_advance = 0, glyph id <= 0xFFFF; non-trivial = at least one glyph returned")
 
 
+def macroman_search(ctx, shim):
+    """UNICODE_TO_MACROMAN (face.rs; regenerated into Gen/Pipeline.lean, so the model follows the crate) against
+    an independent copy: CPython's `mac_roman` codec."""
+    got = [int(x) for x in vlib.run_lines(shim, ["pl mactable"], nproc=1)[0].split()]
+    want = [ord(bytes([0x80 + i]).decode("mac_roman")) for i in range(128)]
+    for i, (g, w) in enumerate(zip(got, want)):
+        if g != w:
+            ctx.violation(f"MacRoman byte 0x{0x80 + i:02X} is U+{w:04X}, face.rs UNICODE_TO_MACROMAN has U+{g:04X}",
+                          {"stage": "search", "stream": "macroman", "byte": 0x80 + i, "expected": w, "observed": g})
+            break
+    ctx.note_search("macroman", 128, 128, rule="the 128 entries of UNICODE_TO_MACROMAN against python's mac_roman codec")
+
+
 def run(ctx):
     ctx.assumptions += [
         "the theorems are about the Lean model RbModel/Pipeline.lean (default shaper, font without layout tables, "
@@ -280,10 +293,11 @@ def run(ctx):
     shim = vlib.build_harness()
     chars = P.Chars(shim)
     chars.load(LETTERS + MIRROR + VERT + SPACES + CONT + MARKS0 + DI + MAC + [0x25CC])
-    P.correspond(ctx, "cmap-metrics", cmap_lines(ctx.rng("cmap"), ctx.budget(1500, 40000)), classify=classify_cmap)
-    P.correspond(ctx, "pipeline-shape", shape_lines(ctx.rng("shape"), chars, ctx.budget(600, 13000)),
+    P.correspond(ctx, "cmap-metrics", cmap_lines(ctx.rng("cmap"), ctx.budget(1500, 100000)), classify=classify_cmap)
+    P.correspond(ctx, "pipeline-shape", shape_lines(ctx.rng("shape"), chars, ctx.budget(600, 50000)),
                    classify=classify_shape)
-    default_search(ctx, shim, chars, ctx.rng("default"), ctx.budget(500, 12000))
+    macroman_search(ctx, shim)
+    default_search(ctx, shim, chars, ctx.rng("default"), ctx.budget(500, 40000))
     corpus_monitors(ctx, shim, ctx.rng("corpus"), ctx.budget(300, 2128))
     if ctx.broken and any(v[2] for v in ctx.violations):
         ctx.violation("proof or correspondence no longer checks: " +
@@ -293,6 +307,11 @@ def run(ctx):
 
 def replay(ctx, rp):
     shim = vlib.build_harness()
+    if rp.get("stream") == "macroman":
+        got = [int(x) for x in vlib.run_lines(shim, ["pl mactable"], nproc=1)[0].split()]
+        i = rp["byte"] - 0x80
+        print(f"byte 0x{rp['byte']:02X}: table U+{got[i]:04X}, mac_roman U+{rp['expected']:04X}")
+        return 0 if got[i] == rp["expected"] else 1
     if rp.get("stream") == "axis-gid16":
         o = vlib.run_groups(shim, [[rp["font_line"], rp["request"]]], nproc=1)[0]
         print("reply:", o[1])
